@@ -67,7 +67,7 @@ except RuntimeError as ex:
 # then they also will have identical compressed weights.
 WeightCompressionConfig = namedtuple(
     "WeightCompressionConfig",
-    ["npu_block_type", "ofm_block_depth", "ofm_depth_step", "dilation", "weight_value_id"],
+    ["npu_block_type", "ofm_block_depth", "ofm_depth_step", "dilation", "weight_value_id", "accelerator", "ifm_bitdepth"],
 )
 
 ScaleCompressionConfig = namedtuple("ScaleCompressionConfig", ["scale_value_id", "ifm_scale", "ofm_scale"])
@@ -131,11 +131,16 @@ class CompressedWeightCache:
         return cache_obj[1] if cache_obj else None
 
 
-def create_weight_compression_config(weight_tens, npu_block_type, ofm_block_depth, ofm_depth_step, dilation):
+def create_weight_compression_config(
+    weight_tens, npu_block_type, ofm_block_depth, ofm_depth_step, dilation, accelerator=None, ifm_bitdepth=None
+):
     # Note: for an ofm block only its depth is used in weight compression.
     # And block depth > ofm depth gives same result as block depth == ofm depth
+    # The encoded stream also depends on the accelerator (micro-block depths, number of cores) and on the IFM bit depth
     block_depth = min(ofm_block_depth, weight_tens.values.shape[-1])
-    return WeightCompressionConfig(npu_block_type, block_depth, ofm_depth_step, dilation, weight_tens.value_id)
+    return WeightCompressionConfig(
+        npu_block_type, block_depth, ofm_depth_step, dilation, weight_tens.value_id, accelerator, ifm_bitdepth
+    )
 
 
 def encode_weights(
@@ -326,7 +331,13 @@ def encode_weight_and_scale_tensor(
     ofm_scale = scale_tens and _get_output_quantization(scale_tens.consumer_list[0]).scale_f32
 
     wcc = create_weight_compression_config(
-        weight_tens, npu_block_type, block_config.ofm_block.depth, hash(str(depth_offsets)), kernel.dilation
+        weight_tens,
+        npu_block_type,
+        block_config.ofm_block.depth,
+        hash(str(depth_offsets)),
+        kernel.dilation,
+        arch.accelerator_config,
+        op.inputs[0].dtype.size_in_bits(),
     )
 
     scc = ScaleCompressionConfig(scale_tens and scale_tens.value_id, ifm_scale, ofm_scale)
